@@ -290,7 +290,17 @@ impl Run {
                             if counting {
                                 stats.evaluations.fetch_add(1, Ordering::Relaxed);
                             }
-                            match check(&c, &probe) {
+                            let verdict = match std::panic::catch_unwind(std::panic::AssertUnwindSafe(|| check(&c, &probe))) {
+                                Ok(v) => v,
+                                Err(p) => {
+                                    // a panic inside the harness is never a violation of the property
+                                    let msg = p.downcast_ref::<String>().cloned().or_else(|| p.downcast_ref::<&str>().map(|s| s.to_string())).unwrap_or_else(|| "panic".into());
+                                    stats.stop.store(true, Ordering::Relaxed);
+                                    stats.inconclusive.lock().unwrap().push(format!("part {part} worker {w}: harness panic: {msg}"));
+                                    return Ok(());
+                                }
+                            };
+                            match verdict {
                                 Verdict::Pass => Ok(()),
                                 Verdict::Unspecified(why) => {
                                     if counting {
